@@ -194,7 +194,7 @@ def ims_value(kind, mtime=MTIME):
 
 
 ZONES = ['CET-1CEST,M3.5.0,M10.5.0/3', 'EST5EDT,M3.2.0,M11.1.0', 'IST-5:30', 'NZST-12NZDT,M9.5.0,M4.1.0/3', 'UTC0']
-SEASONS = {'july': 1625140800, 'january': 1610712000}
+SEASONS = {'july': 1625140800, 'january': 1610712000, 'epoch': 0, 'day-before-epoch': -86400}     # (checkouts and reproducible archives carry mtime 0)
 
 
 def judge(c, n, rng, ims_kind, method, buf):
